@@ -193,6 +193,7 @@ def evidence(res, coverage_extra=None):
         "slowest": [{"obligation": o.name, "seconds": o.time, "backend": o.backend}
                     for o in sorted(obls, key=lambda o: -o.time)[:3]],
         "canaries": {"count": len(can), "refutable_paths": len([o for o in can if o.result == "unsat"])},
+        "second_backend_confirmations": len([o for o in obls if getattr(o, "second", None) and not str(o.second).startswith("DISAGREE")]),
         "not_accepted": [{"obligation": o.name, "result": o.result, "attempts": getattr(o, "all_results", [])}
                          for o in obls if o.result != "unsat"][:20],
         "struct_failures": [{"function": s.ident, "reason": s.msg} for s in res.struct],
